@@ -5,6 +5,7 @@ import Noodles.Cram.Rans4x8
 import Noodles.Cram.Rans4x8Proof
 import Noodles.Cram.Nx16
 import Noodles.Cram.Nx16Proof
+import Noodles.Props.C08Order1
 /-!
 # C08 — CRAM codecs and integer codings decode exactly what was encoded, per the specification
 
